@@ -221,6 +221,31 @@ func c11Expand(w *gen.World, base string, mode int) c11Outcome {
 		if err == nil && pan == "" {
 			o.out, _ = json.Marshal(s)
 		}
+	case 4, 5:
+		// the entry points that take the base as a plain argument and know only the package-level loader: a body parameter / a response
+		// whose schema is a one-node cycle in a document next to the root (one cut-point, written relative to the root: deterministic)
+		cyc := path.Dir(mustPath(w.Root)) + "/c11cycle.json"
+		u, _ := url.Parse(w.Root)
+		u.Path, u.RawPath = cyc, ""
+		ld.docs[u.String()] = []byte(`{"definitions":{"node":{"title":"node","properties":{"next":{"$ref":"#/definitions/node"}}}}}`)
+		saved := spec.PathLoader
+		spec.PathLoader = ld.load
+		if mode == 4 {
+			p := new(spec.Parameter)
+			_ = json.Unmarshal([]byte(`{"name":"b","in":"body","schema":{"$ref":"c11cycle.json#/definitions/node"}}`), p)
+			err, pan = guard(func() error { return spec.ExpandParameter(p, base) })
+			if err == nil && pan == "" {
+				o.out, _ = json.Marshal(p)
+			}
+		} else {
+			r := new(spec.Response)
+			_ = json.Unmarshal([]byte(`{"description":"r","schema":{"items":{"$ref":"c11cycle.json#/definitions/node"},"type":"array"}}`), r)
+			err, pan = guard(func() error { return spec.ExpandResponse(r, base) })
+			if err == nil && pan == "" {
+				o.out, _ = json.Marshal(r)
+			}
+		}
+		spec.PathLoader = saved
 	case 3:
 		// a schema that names itself with an id and contains a cycle: how the cut-points are written must not depend on the spelling
 		s := new(spec.Schema)
@@ -321,7 +346,7 @@ func c11Run(env *core.Env, idx int) core.CaseResult {
 	}
 	sps := spellings(w.Root, cwd, rng, 24)
 	nontrivial := 0
-	for mode, entry := range []string{"ExpandSpec", "ExpandSchemaWithBasePath", "ResolveRefWithBase", "ExpandSchemaWithBasePath(schema-with-id)"} {
+	for mode, entry := range []string{"ExpandSpec", "ExpandSchemaWithBasePath", "ResolveRefWithBase", "ExpandSchemaWithBasePath(schema-with-id)", "ExpandParameter", "ExpandResponse"} {
 		ref := c11Expand(w, w.Root, mode)
 		res.Evals++
 		if ref.errText != "" && mode == 0 {
@@ -402,7 +427,7 @@ func init() {
 		ChunkSize: 24,
 		Floors: func(env *core.Env) []string {
 			return []string{"scheme.file", "scheme.http", "scheme.https", "rewrite.dot-segments", "rewrite.double-slash", "rewrite.upper-case-scheme", "rewrite.fragment", "rewrite.query",
-				"rewrite.file-one-slash", "rewrite.bare-absolute-path", "rewrite.relative-path", "working-directory-behind-a-symlink(documents-on-disk)", "entry.ExpandSpec", "entry.ExpandSchemaWithBasePath", "entry.ResolveRefWithBase", "entry.ExpandSchemaWithBasePath(schema-with-id)"}
+				"rewrite.file-one-slash", "rewrite.bare-absolute-path", "rewrite.relative-path", "working-directory-behind-a-symlink(documents-on-disk)", "entry.ExpandSpec", "entry.ExpandSchemaWithBasePath", "entry.ResolveRefWithBase", "entry.ExpandSchemaWithBasePath(schema-with-id)", "entry.ExpandParameter", "entry.ExpandResponse"}
 		},
 		Assumptions: []string{"only the rewrites the statement lists are applied (no host-case or default-port rewrites)",
 			"the working directory of the worker is a real scratch directory, every other round reached through a symbolic link (PWD is set to the logical path, which is the location the documents are known under)"},
